@@ -19,12 +19,17 @@ type c03Case struct {
 	Root string `json:"root"`
 	Bass string `json:"bass,omitempty"`
 	Path string `json:"path"`
+	// Unicode: the accidentals are written ♯ / ♭ (the lexer accepts both spellings)
+	Unicode bool `json:"unicode_accidentals,omitempty"`
 }
 
 func (c c03Case) text() string {
 	s := c.Root
 	if c.Bass != "" {
 		s += "/" + c.Bass
+	}
+	if c.Unicode {
+		s = strings.NewReplacer("#", "♯", "b", "♭").Replace(s)
 	}
 	return s + "[1]"
 }
@@ -144,10 +149,18 @@ func runC03(e *Env) {
 	var cases []c03Case
 	for _, k := range keys {
 		for _, r := range notes {
-			cases = append(cases, c03Case{k.String(), r.String(), "", "lib"})
+			cases = append(cases, c03Case{Key: k.String(), Root: r.String(), Path: "lib"})
 			for _, b := range notes {
-				cases = append(cases, c03Case{k.String(), r.String(), b.String(), "lib"})
+				cases = append(cases, c03Case{Key: k.String(), Root: r.String(), Bass: b.String(), Path: "lib"})
 			}
+		}
+	}
+	// the same space once more with the accidentals spelled ♯ / ♭ (verdict and degrees judged alike)
+	nASCII := len(cases)
+	for i := 0; i < nASCII; i++ {
+		if c := cases[i]; strings.ContainsAny(c.Root+c.Bass, "#b") {
+			c.Unicode = true
+			cases = append(cases, c)
 		}
 	}
 	accepted := make([]bool, len(cases))
@@ -167,7 +180,7 @@ func runC03(e *Env) {
 			nAcc++
 		}
 	}
-	e.R.AddPart(ev.Part{Name: "all-chords-in-process", Enumerated: "28 converter-scale states x 462 (root, bass) operations, complete", Executions: int64(len(cases)), States: 28, Transitions: int64(len(cases)), Exhaustive: true, Note: fmt.Sprintf("%d accepted, %d refused", nAcc, len(cases)-nAcc)})
+	e.R.AddPart(ev.Part{Name: "all-chords-in-process", Enumerated: "28 converter-scale states x 462 (root, bass) operations, complete; every chord with an accidental also with the accidentals spelled ♯ / ♭", Executions: int64(len(cases)), States: 28, Transitions: int64(len(cases)), Exhaustive: true, Note: fmt.Sprintf("%d accepted, %d refused", nAcc, len(cases)-nAcc)})
 
 	// CLI: accepted chords batched per key (byte-identical to the concatenated in-process answers), refused ones one per run
 	type batch struct {
@@ -212,7 +225,7 @@ func runC03(e *Env) {
 				c03One(e, c)
 			}
 			if r.Err == "" {
-				e.R.Fail(ev.Fail{Class: "C03/cli-differs-from-library", Msg: fmt.Sprintf("key %s: `crd text conv syllable` on the %d accepted chords prints something else than the library composition", b.key, len(b.idx)), Kind: "syllable", Case: c03Case{b.key, "C", "", "cli"}})
+				e.R.Fail(ev.Fail{Class: "C03/cli-differs-from-library", Msg: fmt.Sprintf("key %s: `crd text conv syllable` on the %d accepted chords prints something else than the library composition", b.key, len(b.idx)), Kind: "syllable", Case: c03Case{Key: b.key, Root: "C", Path: "cli"}})
 			}
 			return
 		}
